@@ -19,9 +19,13 @@ from .core import Obligation, State, Val
 
 SOLVERS = {
     "z3-5.1": ["z3-new", "-smt2"],
+    "z3-5.1/ematch": ["z3-new", "-smt2", "smt.mbqi=false", "smt.random_seed=7"],
+    "z3-5.1/arith2": ["z3-new", "-smt2", "smt.arith.solver=2"],
     "z3-4.8": ["/usr/bin/z3", "-smt2"],
+    "z3-4.8/ematch": ["/usr/bin/z3", "-smt2", "smt.mbqi=false"],
     "cvc5": ["/usr/bin/cvc5", "--lang=smt2", "--strings-exp", "--arrays-exp"],
 }
+PORTFOLIO = ("z3-5.1", "z3-5.1/ematch", "z3-4.8", "z3-5.1/arith2", "z3-4.8/ematch", "cvc5")
 
 
 @dataclass
@@ -155,7 +159,31 @@ def to_smt2(ob: Obligation, extra_fuel=0) -> str:
         s.add(h)
     s.add(z3.Not(ob.goal))
     txt = s.to_smt2()
-    return txt
+    return reorder_datatypes(txt)
+
+
+def reorder_datatypes(txt: str) -> str:
+    """z3's printer may emit a datatype before one it mentions inside Seq/Array: sort topologically."""
+    lines = txt.split("\n")
+    idx = [i for i, l in enumerate(lines) if l.startswith("(declare-datatypes")]
+    if len(idx) < 2:
+        return txt
+    decls = [lines[i] for i in idx]
+    names = [re.match(r"\(declare-datatypes \(\((\S+) ", d).group(1) for d in decls]
+    deps = {n: {m for m in names if m != n and re.search(r"[ (]" + re.escape(m) + r"[ )]", d)} for n, d in zip(names, decls)}
+    order, placed = [], set()
+    while len(order) < len(names):
+        progress = False
+        for n, d in zip(names, decls):
+            if n not in placed and deps[n] <= placed:
+                order.append(d)
+                placed.add(n)
+                progress = True
+        if not progress:
+            return txt
+    first = idx[0]
+    rest = [l for i, l in enumerate(lines) if i not in set(idx)]
+    return "\n".join(rest[:first] + order + rest[first:])
 
 
 def write_smt2(ob: Obligation, outdir: str, extra_fuel=0) -> str:
@@ -163,6 +191,8 @@ def write_smt2(ob: Obligation, outdir: str, extra_fuel=0) -> str:
     fn = re.sub(r"[^A-Za-z0-9_.@#-]", "_", ob.name) + ".smt2"
     p = os.path.join(outdir, fn)
     txt = to_smt2(ob, extra_fuel)
+    if any(tok in txt for tok in ("setminus", "(lambda ", "(union ", "(intersection ", "(_ map", "(subset ", "as union", "as intersection", "as setminus")):
+        _no_cvc5.add(p)
     with open(p, "w") as f:
         f.write(f"; obligation {ob.name} kind={ob.kind} line={ob.line}\n")
         if ob.info.get("clause"):
@@ -170,6 +200,9 @@ def write_smt2(ob: Obligation, outdir: str, extra_fuel=0) -> str:
         f.write(txt)
         f.write("(get-model)\n")
     return p
+
+
+_no_cvc5: set = set()
 
 
 def run_solver(solver: str, path: str, timeout: float):
@@ -221,7 +254,7 @@ def discharge_one(ob: Obligation, outdir: str, timeout: float, portfolio, extra_
     return res
 
 
-def discharge(obs, outdir, timeout=20.0, portfolio=("z3-5.1", "cvc5", "z3-4.8"), jobs=16, extra_fuel=0):
+def discharge(obs, outdir, timeout=20.0, portfolio=PORTFOLIO, jobs=16, extra_fuel=0):
     results = [None] * len(obs)
     # emission uses the z3 python API (not thread-safe): emit serially, solve in parallel
     paths = []
@@ -236,7 +269,9 @@ def discharge(obs, outdir, timeout=20.0, portfolio=("z3-5.1", "cvc5", "z3-4.8"),
         ob = obs[i]
         res = Result(ob.name, ob.kind, "unknown", smt_file=paths[i], expect_fail=ob.expect_fail, line=ob.line, info=ob.info)
         for solver in portfolio:
-            st, out, dt = run_solver(solver, paths[i], timeout)
+            if solver == "cvc5" and paths[i] in _no_cvc5:
+                continue
+            st, out, dt = run_solver(solver, paths[i], min(timeout, 4.0) if ob.expect_fail else timeout)
             res.attempts.append({"solver": solver, "status": st, "time_s": round(dt, 3)})
             res.time_s += dt
             if st == "unsat":
